@@ -57,6 +57,9 @@ def histories(strict=False, guaranteed_bias=False, max_ticks=40):
         "client_every": st.sampled_from([1, 1, 1, 2, 3, 6]),
         # the application passes ONE callable (a bound method, say) to several unretried sends queued in the same frame
         "shared_cb": st.sampled_from([0, 0, 2, 3]),
+        # the application raises the MTU (Packet.setMTU(1500)) once everything has been submitted: what is retransmitted
+        # afterwards was cut into fragments under the old MTU
+        "mtu_raise": st.sampled_from([False, False, True]),
         # where the (virtual) clock starts: a small number, or a present-day epoch value (float spacing 2.4e-7 s)
         "t0": st.sampled_from([1000.0, 1000.0, 1.7e9]),
         "burst": st.one_of(st.none(), st.none(), st.none(), st.fixed_dictionaries({
@@ -274,6 +277,9 @@ def run(ctx, c, oracle, per_step=None, link_setup=None, payload_fn=None):
                     else:
                         w.net.push(w.clock.t + 0.0005, ch.laddr, w.server_addr, d)
                     f.forged = getattr(f, "forged", 0) + 1
+        if c.get("mtu_raise") and c["mtu"] < 1500:
+            Packet.setMTU(1500)
+            f.mtu_raised = True
         if not c["strict"]:
             for _ in range(int(c.get("adv_extra", 0.0) / c["dt"])):
                 step()
